@@ -85,10 +85,10 @@ class State:
         vals += [0.0, -0.0]
         self.values = vals
         self.ops, self.subs = [], []
-        ntags = _ri(rng, 3, 8)
-        self.tags = [self.fresh_tag() for _ in range(ntags)]
         self.syms = [_choice(rng, SYMBOLS) for _ in range(2)]
         self.keys = [_choice(rng, KEYS) for _ in range(3)]
+        ntags = _ri(rng, 3, 8)
+        self.tags = [self.fresh_tag() for _ in range(ntags)]
 
     # -- values
     def num(self):
@@ -126,7 +126,7 @@ class State:
         if u < 0.55:
             return ("cal", _choice(r, ["tok", "tok2", "", "abc/def"]))
         if u < 0.65:
-            return ("dd", _choice(r, ["X", "XY4", ""]))
+            return ("dd", _choice(r, ["X", "Y", "XY4", "XY8"]))
         if u < 0.72:
             return ("compress",)
         if u < 0.78:
@@ -276,7 +276,8 @@ def gen_params(st, kind, nq):
         return {"name": _choice(r, ["G", "G2", "PulseGate"]), "module": _choice(r, ["mod", "mod.sub", ""]), "n": nq,
                 "args": st.arg_items(_ri(r, 0, 5))}
     if kind == "Depol":
-        return {"p": st.prob(), "n": nq}
+        # p = 0 / 1 come back as Python ints, which the reader rejects (mechanism key in the edge section)
+        return {"p": _choice(r, [0.5, 0.25, 0.1, 0.1000001, 0.01, 0.3, float(r.uniform(0.001, 0.7))]), "n": nq}
     if kind == "RandomGate":
         sub = _choice(r, ["XPow", "YPow", "ZPow", "HPow"] if nq == 1 else ["CZPow", "ISwapPow"])
         return {"p": st.prob(), "sub": sub, "sub_p": {"exponent": st.num()}}
@@ -403,12 +404,15 @@ def gen_gate_op(st, free, used_keys, weights):
             if src["k"] == "FSim":
                 extra = [t for t in extra if t not in (("fsimvia",), ("twopulse",))]
             op["t"] = keep + extra
+            op["c"] = []
         elif v < 0.9:  # nearly equal parameter
             op = _nudge(st, src)
         else:  # same op with / without a classical control
             op = copy.deepcopy(src)
             if st.mode != "unitary" and op["k"] != "Measure":
                 op["c"] = [] if op["c"] else [st.cond()]
+                if op["c"]:
+                    op["t"] = []  # cirq-core drops tags when a tagged operation is wrapped in a classical control
         if op is not None and all(q in free for q in op["q"]) and not (op_keys(op) & used_keys):
             return op
     # --- fresh -----------------------------------------------------------------------------------------
@@ -431,6 +435,7 @@ def gen_gate_op(st, free, used_keys, weights):
         op = {"k": kind, "p": p, "q": qs, "t": st.tags_for(kind), "c": []}
         if st.mode != "unitary" and kind != "Measure" and r.random() < 0.12:
             op["c"] = [st.cond() for _ in range(_choice(r, [1, 1, 2]))]
+            op["t"] = []  # tags and classical controls cannot be combined on the wire (documented ValueError)
         st.ops.append(op)
         if len(st.ops) > 12:
             st.ops.pop(int(r.integers(len(st.ops))))
@@ -546,7 +551,6 @@ def gen_body(st, n_ops, depth, weights):
                 m["ops"].pop(int(r.integers(len(m["ops"]))))
             else:
                 m["tags"] = [_choice(r, st.tags)] if not m["tags"] else []
-                m["tags"] = [t for t in m["tags"] if t[0] == "raw" or t[0] in ("cal", "dd", "compress", "internal")]
             moments.append(m)
             total += max(1, len(m["ops"]))
             continue
@@ -571,17 +575,48 @@ def gen_body(st, n_ops, depth, weights):
             free = [q for q in free if q not in op["q"]]
         mtags = []
         if r.random() < 0.08:
-            t = _choice(r, st.tags)
-            if t[0] in ("raw", "cal", "dd", "compress", "internal"):
-                mtags.append(t)
+            mtags.append(_choice(r, st.tags))
         moments.append({"ops": ops, "tags": mtags})
         total += max(1, len(ops))
     ctags = []
     if r.random() < 0.1:
-        t = _choice(r, st.tags)
-        if t[0] in ("raw", "cal", "dd", "compress", "internal"):
-            ctags.append(t)
+        ctags.append(_choice(r, st.tags))
     return {"m": moments, "tags": ctags}
+
+
+SYMMETRIC = {"CZPow", "ISwapPow", "FSim", "SYC", "WILLOW"}
+
+
+def _content_key(m):
+    """Moment content up to what Cirq's Moment equality can see at the abstract level (tags of the moment
+    itself are NOT part of Moment equality)."""
+    ops = []
+    for op in m["ops"]:
+        o = dict(op)
+        o["q"] = sorted(map(tuple, op["q"])) if op["k"] in SYMMETRIC else [tuple(q) for q in op["q"]]
+        ops.append(repr(sorted(o.items(), key=lambda kv: kv[0])))
+    return repr(sorted(ops))
+
+
+def normalise_moment_tags(circuits):
+    """Known defect (mechanism C16:moment-tags-lost-on-constants-hit): the constants table is keyed by Moment
+    equality, which ignores moment tags.  The random sections keep moment tags equal across moments of equal
+    content (so a table hit is legitimate); the mixed pattern is exercised in the edge section."""
+    first = {}
+
+    def walk(c):
+        for m in c["m"]:
+            for op in m["ops"]:
+                if op["k"] == "CircuitOp":
+                    walk(op["sub"])
+            k = _content_key(m)
+            if k in first:
+                m["tags"] = copy.deepcopy(first[k])
+            else:
+                first[k] = m["tags"]
+
+    for c in circuits:
+        walk(c)
 
 
 def gen_program(rng, mode=None, n_ops=None, nq=None, family=None):
@@ -595,4 +630,5 @@ def gen_program(rng, mode=None, n_ops=None, nq=None, family=None):
     n = n_ops if n_ops is not None else _ri(rng, 5, 61)
     weights = dict(W_UNITARY if mode == "unitary" else W_FULL)
     body = gen_body(st, n, 0, weights)
+    normalise_moment_tags([body])
     return {"mode": mode, "qubits": qubits, "symbolic": symbolic, "circuit": body}
